@@ -14,7 +14,7 @@ var errTooFew = errors.New("too few parameters")
 func (p *Parameters) Byte(pos int) ([]byte, error) {
 	p.mutex.RLock()
 
-	if p.Len() <= pos {
+	if len(p.params) <= pos {
 		p.mutex.RUnlock()
 		return []byte{}, errTooFew
 	}
@@ -71,7 +71,7 @@ func (p *Parameters) RuneAll() []rune {
 func (p *Parameters) String(pos int) (string, error) {
 	p.mutex.RLock()
 
-	if p.Len() <= pos {
+	if len(p.params) <= pos {
 		p.mutex.RUnlock()
 		return "", errTooFew
 	}
@@ -126,7 +126,7 @@ func (p *Parameters) Int(pos int) (int, error) {
 	p.mutex.RLock()
 	defer p.mutex.RUnlock()
 
-	if p.Len() <= pos {
+	if len(p.params) <= pos {
 		return 0, errTooFew
 	}
 	return strconv.Atoi(p.params[pos])
@@ -137,7 +137,7 @@ func (p *Parameters) Uint32(pos int) (uint32, error) {
 	p.mutex.RLock()
 	defer p.mutex.RUnlock()
 
-	if p.Len() <= pos {
+	if len(p.params) <= pos {
 		return 0, errTooFew
 	}
 	i, err := strconv.ParseUint(p.params[pos], 10, 32)
@@ -149,7 +149,7 @@ func (p *Parameters) Bool(pos int) (bool, error) {
 	p.mutex.RLock()
 	defer p.mutex.RUnlock()
 
-	if p.Len() <= pos {
+	if len(p.params) <= pos {
 		return false, errTooFew
 	}
 	return types.IsTrue([]byte(p.params[pos]), 0), nil
@@ -161,7 +161,7 @@ func (p *Parameters) Block(pos int) ([]rune, error) {
 	defer p.mutex.RUnlock()
 
 	switch {
-	case p.Len() <= pos:
+	case len(p.params) <= pos:
 		return []rune{}, errTooFew
 
 	case len(p.params[pos]) < 2:
